@@ -108,7 +108,14 @@ class C02(Check):
             if eo.startswith('value'): nontriv.add(cl)
             if not core.expect_agrees(co, eo, rel=1e-10, stats=stats):
                 tab = {'CS_Photo': 'Photo'}.get(fn)
-                key = 'shape:%s:%d' % (tab, Z) if tab and ('%s:%d' % (tab, Z)) in bad_shape else cl
+                key = cl
+                if tab and ('%s:%d' % (tab, Z)) in bad_shape:
+                    # a table with out-of-order knots is the known data defect ONLY where the disorder is: inside the span of the offending
+                    # knot pair(s) (where bracketing is undefined); a disagreement anywhere else on that element is a new violation
+                    xs = self.knots(ctx).get((fn, Z), [])
+                    x = math.log(a * 1000.0) if a > 0 else None
+                    spans = [(min(xs[k], xs[k + 1], xs[max(k - 1, 0)]), max(xs[k], xs[k + 1], xs[min(k + 2, len(xs) - 1)])) for k in range(len(xs) - 1) if xs[k + 1] < xs[k]]
+                    if x is not None and any(lo - 1e-9 <= x <= hi + 1e-9 for lo, hi in spans): key = 'shape:%s:%d' % (tab, Z)
                 viol.append(dict(key=key, got=co, expected=eo, what='spline site: library vs specification (%s point)' % cls))
             # the property's own reading of "never extrapolates": beyond the last knot the call must fail
             if cls == 'high' and core.parse_answer(co)['kind'] == 'ok' and core.parse_answer(co)['slot'] == 'E':
